@@ -66,7 +66,7 @@ def pipelines(tier, seed):
     for label, src, tables in progs.enumerate_programs(1):
         ps.append((label, src))
     pairs = progs.enumerate_programs(2)
-    for label, src, tables in (pairs[::5] if tier == "quick" else pairs):
+    for label, src, tables in ([p for p in pairs if progs.quick_keep(p[0], 5)] if tier == "quick" else pairs):
         ps.append((label, src))
     extra = [
         ("window_opts", f"{D}.extend({{'r': '_row_number()', 's': 'x.shift(2)', 'l': 'x.shift(-1)'}}, partition_by=['g', 'y'], order_by=['x'], reverse=['x'])"),
